@@ -2,6 +2,7 @@
 from .inv_base import InvProp
 from ..prng import Rng
 from .. import genv as G
+from .. import geninv2 as GI2
 from .. import core
 
 REFS = G.enc({"full": "${_reclass_:name:full}", "short": "${_reclass_:name:short}", "path": "${_reclass_:name:path}",
@@ -58,6 +59,9 @@ class C18(InvProp):
         return [dict(c) for c in CLAUSES] + super().corpus()
 
     def cases(self, tier, seed):
+        for j in range(8 if tier == 'quick' else 100):
+            rr = Rng(seed, 'C18:scale', j)
+            yield GI2.scale_inventory(rr, tier, kind=rr.choice(['long_names', 'deep_dirs']))
         N = 200 if tier == "quick" else 5000
         segs = ["g", "h", "_u", "_w", "g.x", "a-b", "k_1"]
         names = ["n", "m", "a.b", "c.d.e", "_n", "x-1", "init"]
@@ -68,6 +72,11 @@ class C18(InvProp):
                 d = [r.choice(segs) for _ in range(r.range(0, 3))]
                 paths.add("/".join(["nodes"] + d + [r.choice(names) + "." + r.choice(["yml", "yaml"])]))
             yield case(sorted(paths), r.chance(2, 3), r.chance(1, 3))
+            if i % 4 == 2:
+                # the inventory is addressed by a path relative to the working directory (which differs from case to case)
+                cw = case(sorted(paths), r.chance(2, 3), r.chance(1, 3))
+                cw["cwd_relative"] = True
+                yield cw
             if i % 3 == 0:
                 # the same instance renders, has its compatibility flags changed through the public methods, and renders
                 # again: metadata must follow the settings in force (compared with a fresh instance)
@@ -117,6 +126,8 @@ class C18(InvProp):
             refs = {"full": exp["full"], "short": exp["short"], "path": exp["path"], "parts": exp["parts"], "env": "base",
                     "emb": "n=%s/%s" % (exp["full"], exp["path"])}
             for k, v in refs.items():
+                if k not in params:
+                    continue   # inventories from other generators do not carry the reference parameters
                 if params.get(k) != v:
                     why.append("reference to _reclass_ field %s rendered %r, expected %r" % (k, params.get(k), v))
         if why:
